@@ -1,8 +1,13 @@
 #!/usr/bin/env bash
 # runs every seeded change of /verif/seeded against the quick check of the property it breaks
 cd /verif
+# optional arguments: ids (C12-1) or properties (C12) to restrict to
 for d in seeded/*/; do
     id=$(basename "$d"); prop=${id%%-*}
+    if [ $# -gt 0 ]; then
+        hit=0; for a in "$@"; do [ "$a" = "$id" ] || [ "$a" = "$prop" ] && hit=1; done
+        [ $hit = 1 ] || continue
+    fi
     patch="$d/patch.diff"; [ -f "$d/patch.rebased.diff" ] && patch="$d/patch.rebased.diff"
     echo "== $id"
     tools/mutant.sh "$patch" "$prop" 2>&1 | sed 's/^/   /' | cut -c1-300
